@@ -46,6 +46,9 @@ type Sim struct {
 	curOp   *Op
 	curPre  string
 	collIDs map[[2]int]uint32
+	dumpN   int
+	views   map[[2]int]*viewState
+	freshN  int
 }
 
 func NewSim(ctx *sup.Ctx, r *rng.R, cfg Config, opt SimOptions) (*Sim, error) {
@@ -309,7 +312,7 @@ func (s *Sim) judgeLive(st *Step, dk DocKey, changed bool, nd *Doc) {
 			if st.Ex.DCJSON || st.Ex.Accept == -1 {
 				wj = nil
 			}
-			CompareEvent("event", "C08", e, &st.PostObs, wj, st.CollID, false, s.report, fmt.Sprintf("feed %d, %s after %s", fi, dk, st.Op.Variant()))
+			CompareEvent("event", "C08", e, &st.PostObs, wj, st.CollID, f.KeysOnly, s.report, fmt.Sprintf("feed %d, %s after %s", fi, dk, st.Op.Variant()))
 		}
 		if n != wantN {
 			kind := "event.count"
@@ -576,7 +579,9 @@ func (s *Sim) doDrop(op Op) *Step {
 
 // JudgeDump runs a Dump backfill from startCas on (b, c) and compares it with the current read-back of every key (C09, C05, C17).
 func (s *Sim) JudgeDump(b, c int, startCas uint64, why string) {
-	evs, err := s.Env.DumpEvents(b, 0, c, startCas, false)
+	s.dumpN++
+	keysOnly := s.dumpN%4 == 3 // every fourth dump is a KeysOnly backfill
+	evs, err := s.Env.DumpEvents(b, 0, c, startCas, keysOnly)
 	s.Ctx.Count("dumps", 1)
 	if err != nil {
 		s.report([]string{"C09"}, "backfill.error", fmt.Sprintf("dump feed on b%d/c%d from %d: %v", b, c, startCas, err))
@@ -643,7 +648,7 @@ func (s *Sim) JudgeDump(b, c int, startCas uint64, why string) {
 		d := s.doc(dk)
 		wj := &d.JSON
 		s.curPreOverride(d.Class())
-		CompareEvent("backfill", "C09", e, &o, wj, s.collIDs[[2]int{b, c}], false, s.reportDump(dk), fmt.Sprintf("backfill(%s) of %s, last mutated by %s", why, dk, orDash(s.LastMut[dk])))
+		CompareEvent("backfill", "C09", e, &o, wj, s.collIDs[[2]int{b, c}], keysOnly, s.reportDump(dk), fmt.Sprintf("backfill(%s) of %s, last mutated by %s", why, dk, orDash(s.LastMut[dk])))
 	}
 	for _, w := range wants {
 		n := seen[w.k.K]
